@@ -181,6 +181,10 @@ def run_C19(ctx):
     n = 4 if q else 5
     r = tlc_message(ctx, "Msg_clones", max_msgs=3, max_ops=n, max_appends=n, **common)
     drive_message(ctx, r.stdout_path, "clones", agg, every=9, faults=False)
+    # a member refilled by UnmarshalText (two data lines and a comment) after it was cloned: the clones keep their chunks
+    r = tlc_message(ctx, "Msg_clone_refill", texts=[["data", "COLON", "y", "LF", "COLON", "x", "LF", "data", "COLON", "d1", "LF", "LF"]],
+                    max_msgs=3, max_ops=2, max_appends=2, **common)
+    drive_message(ctx, r.stdout_path, "clonerefill", agg, every=9, faults=False)
     # the fields a clone copies, and assignments to either side afterwards
     r = tlc_message(ctx, "Msg_clone_fields", ids=[X, ["y"]], types=[X], retries=["ms1", "s1"], max_msgs=2, max_ops=2, max_appends=1,
                     any_target=True, auto_data=True)
